@@ -14,6 +14,7 @@ sys.path.insert(0, os.path.dirname(os.path.abspath(__file__)))
 from rustlex import (find_block_open, strip_comments, find_matching, find_depth0, scan_depth0, split_depth0, norm_ws, line_of,
                      skip_literal, LexError)
 from rustitems import (split_items, parse_fn, parse_impl, parse_struct, strip_inner_attrs, generic_args, Item)
+import sidecar
 from sidecar import parse_sidecar, Contract
 
 
@@ -83,6 +84,8 @@ DROP_TRAIT_IMPLS = re.compile(
 DEBUG_TRAIT = re.compile(r'^(?:core::fmt::|fmt::)?Debug$')
 ZEROIZE_TRAIT = re.compile(r'^(?:Zeroize|Drop)$')
 
+DEFAULT_ENTRY_HINTS = 'broadcast use crate::vstdx::group_cow;\nproof { crate::vspec::use_algebra::<C>(); crate::vspec::use_id_order::<C>(); }\n'
+
 STD_USE = ('#[allow(unused_imports)] use vstd::prelude::*; #[allow(unused_imports)] use crate::vprel::*; '
            '#[allow(unused_imports)] use crate::vspec::*;')
 
@@ -118,14 +121,55 @@ class Unit:
         self.local_mods = set(m[0].split('::')[0] for m in cfg['modules'] if m[0]) | set(cfg.get('prelude_modules', {}).keys())
         self.mod_opts = {}         # options of the module being processed (see `module_entry`)
         self.downgraded = set()    # keys emitted `assumed` here although their sidecar block says `verified` (E9)
+        # cfg['strip_clauses'] = {function key: [clause names] | '*'}: clauses that do not hold in this unit's world are NOT emitted (the
+        # function stays verified against the rest; callers learn nothing from a stripped clause).  '*' removes the whole block.
+        # cfg['force_assumed'] = [key regex]: functions verified in ANOTHER unit against the identical (world-independent) contract and only
+        # assumed here (E9), because their body cannot be compiled in this unit
+        for k, c in self.contracts.items():
+            if any(re.search(rx, k) for rx in cfg.get('force_assumed', ())):
+                c.mode = 'assumed'
+                c.outlines = []
+        for k, names in cfg.get('strip_clauses', {}).items():
+            c = self.contracts.get(k)
+            if c is None:
+                raise ExtractError('strip_clauses: no sidecar block for %s' % k)
+            if getattr(c, 'overrides', None):
+                continue      # the unit's own override block is taken as written
+            if names == '*':
+                c.used = True
+                del self.contracts[k]
+                continue
+            have = set(cl.name for cl in c.ensures)
+            for nm in names:
+                if nm not in have:
+                    raise ExtractError('strip_clauses: %s has no ensures clause %r' % (k, nm))
+            c.ensures = [cl for cl in c.ensures if cl.name not in names]
+            c.stripped = list(names)
 
     def rule(self, name, n=1):
         self.rules[name] = self.rules.get(name, 0) + n
+
+    def read_verif_file(self, rel):
+        """a hand-written prelude/lemma file, with the unit's `prelude_rewrites` [(file, old, new)] applied (exact text, each must
+        match exactly once: fail closed)"""
+        txt = open(os.path.join(self.cfg['verif_root'], rel)).read()
+        for rw in self.cfg.get('prelude_rewrites', ()):
+            f, old, new = rw[:3]
+            want = rw[3] if len(rw) > 3 else 1
+            if f == rel:
+                if txt.count(old) != want:
+                    raise ExtractError('prelude rewrite of %s: text %r occurs %d times (expected %d)' % (rel, old[:60], txt.count(old), want))
+                txt = txt.replace(old, new)
+                self.rule('E14.prelude_rewrite')
+        return txt
 
     # ------------------------------------------------------------------------------------------
     def cfg_dropped(self, attrs):
         for a in attrs:
             if re.match(r'#\[cfg\(', a):
+                m = re.match(r'#\[cfg\(\s*feature\s*=\s*"([\w-]+)"\s*\)\]$', norm_ws(a))
+                if m and m.group(1) in self.cfg.get('features', ()):
+                    continue      # the unit is built with this cargo feature of the crate enabled (e.g. `internals`, which the Taproot crate needs)
                 return a
             if re.match(r'#\[macro_use', a):
                 return a
@@ -159,8 +203,16 @@ class Unit:
                 self.rule('E0.path_rewrite', n)
         return src
 
+    def is_foreign(self):
+        """the module being processed comes from another crate root than the unit's own crate"""
+        return self.mod_opts.get('repo_prefix', self.cfg['repo_prefix']) != self.cfg['repo_prefix']
+
     def process_file(self, relpath, modpath, opts=None):
         self.mod_opts = opts or {}
+        # module opts `use` / `entry_hints`: the `use` header and the injected entry hints of this module (a module of another crate that
+        # defines its own `Identifier`, `Error`, ... aliases cannot glob-import the contract vocabulary)
+        self.std_use = self.mod_opts.get('use', STD_USE)
+        self.entry_hints = self.mod_opts.get('entry_hints', DEFAULT_ENTRY_HINTS)
         raw = src = self.read_module(relpath, self.mod_opts)
         # inner attributes / module docs at file top
         items = split_items(src)
@@ -205,7 +257,7 @@ class Unit:
                 self.inline_mods = getattr(self, 'inline_mods', []) + [it.name]
                 v, p = self.process_items(inner_items, it.text, raw, relpath, sub_mod)
                 self.inline_mods = self.inline_mods[:-1]
-                V.append('} // verus!\npub mod %s {\n%s\nverus! {\n%s\n} // verus!\n%s\n} // mod %s\nverus! {' % (it.name, STD_USE, v, p, it.name))
+                V.append('} // verus!\npub mod %s {\n%s\nverus! {\n%s\n} // verus!\n%s\n} // mod %s\nverus! {' % (it.name, self.std_use, v, p, it.name))
                 continue
             if k in ('struct', 'enum'):
                 v, p = self.process_type(it, repo_rel, modpath)
@@ -404,13 +456,22 @@ class Unit:
         where = (' ' + im.where) if im.where else ''
         if im.trait and DEBUG_TRAIT.match(im.trait):
             return '', self.debug_stub(im.ty.split('<')[0], im.generics, im.where) if False else self._debug_stub_for(im)
-        if im.trait and DROP_TRAIT_IMPLS.search(im.trait):
+        if im.trait and (DROP_TRAIT_IMPLS.search(im.trait) or any(re.search(rx, im.trait) for rx in self.cfg.get('drop_trait_impls', ()))):
             self.rule('E2.trait_impl_dropped.' + re.sub(r'\W.*', '', im.trait.split('::')[-1]))
             self.dropped.append((repo_rel, it.line, 'impl ' + im.key, 'trait impl outside the Verus unit'))
             return '', ''
         V = []
         P = []
         X = []
+        # sidecar `impl <file> :: <impl header>` block: items the prelude trait requires on top of the repo's methods (definitions of the
+        # trait's spec functions, the T3 axioms as external_body proof fns)
+        ic = self.contracts.get('impl ' + repo_rel + ' :: ' + im.key)
+        if ic is not None:
+            ic.used = True
+            V.append('\n'.join(ic.extra))
+            self.rule('E11.impl_spec_items')
+        if im.trait == 'Ciphersuite' and self.is_foreign():
+            return self.process_ciphersuite_impl(it, im, repo_rel, modpath, V)
         for sub in im.items:
             why = self.cfg_dropped(sub.attrs)
             if why:
@@ -445,17 +506,131 @@ class Unit:
             out_v += '\n' + '\n'.join(X)
         return out_v, out_p
 
+    def qualify_trait_names(self, t):
+        """type names in a signature copied from the prelude trait -> crate-absolute paths (the suite's module has other names in scope).
+        The table is read from the `use crate::{..}` block of the prelude traits file."""
+        tab = getattr(self, '_trait_names', None)
+        if tab is None:
+            tab = {}
+            src = open(os.path.join(self.cfg['verif_root'], self.cfg['traits_prelude'])).read()
+            m = re.search(r'use crate::\{(.*?)\n\};', src, re.S)
+
+            def walk(txt, prefix):
+                for part in split_depth0(txt, ',', angle=False):
+                    part = part.strip()
+                    if not part:
+                        continue
+                    g = re.match(r'([\w:]+)::\{(.*)\}$', part, re.S)
+                    if g:
+                        walk(g.group(2), prefix + '::' + g.group(1))
+                    elif part == 'self':
+                        tab[prefix.split('::')[-1]] = prefix
+                    else:
+                        tab[part.split('::')[-1]] = prefix + '::' + part
+            if m:
+                walk(m.group(1), 'crate')
+            self._trait_names = tab
+        for nm, full in tab.items():
+            t = re.sub(r'(?<![\w:])%s\b' % nm, full, t)
+        return t
+
+    @staticmethod
+    def param_names(params):
+        out = []
+        for prm in split_depth0(params, ',', angle=True):
+            prm = prm.strip()
+            if prm:
+                out.append(re.sub(r'^mut\s+', '', prm.split(':')[0].strip()))
+        return out
+
+    def process_ciphersuite_impl(self, it, im, repo_rel, modpath, V):
+        """E10b: `impl Ciphersuite for X` of a concrete suite.  Verus rejects a trait-impl method that calls a function generic over
+        the trait at the implementing type ("cyclic self-reference": method -> f::<X> -> impl -> method), which every hook does.  So,
+        as for the default bodies (E10), each method body is emitted as a free function `hook_<name>` (text unchanged except
+        `Self` -> X) and VERIFIED there against (i) the trait-level contract of the hook (`hook_ensures` and `call_ensures` of
+        contracts/hooks.vc with Self -> X, parameters renamed positionally) and (ii) its own sidecar block; the impl method is the
+        delegation `{ hook_<name>(args) }` (external_body: its inherited trait contract is exactly what was verified).  A hook the suite
+        does not override gets the body `default_<name>::<X>(args)` -- the meaning of "not overridden" -- and is verified the same way, so
+        the impl-level definitions of the trait spec functions are CHECKED against the behaviour for every hook.  `const ID` is dropped
+        (the prelude trait omits it: only serde code uses it)."""
+        ty = im.ty
+
+        def deself(t):
+            t = re.sub(r'\bSelf\s*::\s*(Group|HashOutput|SignatureSerialization)\b', r'<%s as Ciphersuite>::\1' % ty, t)
+            return re.sub(r'\bSelf\b', ty, t)
+        F = []
+        have = set()
+        subs = []
+        for sub in im.items:
+            why = self.cfg_dropped(sub.attrs)
+            if why:
+                self.rule('E1.cfg_item_dropped')
+                continue
+            sub.line = it.line + it.text.count('\n', 0, sub.off)
+            sub.end_line = sub.line + sub.text.count('\n')
+            if sub.kind == 'const' and sub.name == 'ID':
+                self.rule('E11.const_id_dropped')
+                continue
+            if sub.kind != 'fn':
+                V.append(sub.text)
+                continue
+            subs.append(sub)
+            have.add(sub.name)
+        hook_info = getattr(self, 'hook_info', {})
+        for name, h in hook_info.items():
+            if name in have:
+                continue
+            args = ', '.join(self.param_names(h['params']))
+            ntp = len([g for g in (h['generics'][1:-1].split(',') if h['generics'] else []) if g.strip() and not g.strip().startswith("'")])
+            text = 'fn %s%s(%s)%s %s {\n    crate::traits_defaults::default_%s::<Self%s>(%s)\n}' % (
+                name, h['generics'], self.qualify_trait_names(h['params']), (' -> ' + self.qualify_trait_names(h['ret'])) if h['ret'] else '',
+                self.qualify_trait_names(h['where']), name, ', _' * ntp, args)
+            sub = Item([], text, 0, text)
+            sub.line, sub.end_line = it.line, it.line
+            sub.synth = True
+            subs.append(sub)
+            self.rule('E10b.hook_not_overridden_uses_default')
+        for sub in subs:
+            f = parse_fn(sub.text)
+            key = repo_rel + ' :: ' + im.key + ' :: ' + f.name
+            h = hook_info.get(f.name)
+            inject = []
+            if h and h['contract'] is not None:
+                hc = h['contract']
+                ren = dict(zip(self.param_names(h['params']), self.param_names(f.params)))
+
+                def adapt(t):
+                    t = deself(self.qualify_trait_names(t))
+                    for a, b in ren.items():
+                        if a != b:
+                            t = re.sub(r'(?<![\w.])%s\b' % re.escape(a), b, t)
+                    return t
+                for cl in hc.hook_requires + hc.hook_ensures + hc.call_ensures:
+                    inject.append((cl.kind, cl.name, adapt(cl.text)))
+            free = Item(sub.attrs, deself(re.sub(r'\bfn\s+%s\b' % f.name, 'fn hook_%s' % f.name, sub.text, 1)), sub.off, sub.text)
+            free.line, free.end_line = sub.line, sub.end_line
+            v, p, extra = self.process_fn(free, None, repo_rel, modpath, key=key, inject=inject, src_text=sub.text)
+            F.append(v)
+            if extra:
+                F.append(extra)
+            ret = (' -> %s' % f.ret) if f.ret else ''
+            where = ('\n    ' + f.where) if f.where else ''
+            V.append('#[verifier::external_body]\nfn %s%s(%s)%s%s\n{ hook_%s(%s) }' % (f.name, f.generics, f.params, ret, where, f.name, ', '.join(self.param_names(f.params))))
+            self.rule('E10b.hook_body_to_free_fn')
+        hdr = 'impl%s %s%s' % (im.generics, im.key, (' ' + im.where) if im.where else '')
+        return hdr + ' {\n' + '\n'.join(V) + '\n}\n' + '\n'.join(F), ''
+
     def _debug_stub_for(self, im):
         self.rule('E2.debug_stub')
         where = (' ' + im.where) if im.where else ''
         return 'impl%s core::fmt::Debug for %s%s { fn fmt(&self, _f: &mut core::fmt::Formatter<\'_>) -> core::fmt::Result { Ok(()) } }' % (im.generics, im.ty, where)
 
     # ------------------------------------------------------------------------------------------
-    def process_fn(self, it, im, repo_rel, modpath):
+    def process_fn(self, it, im, repo_rel, modpath, key=None, inject=(), src_text=None):
         """Returns (verus_text, plain_text, extra_items_text)."""
         f = parse_fn(it.text)
         inl = ''.join(m + ' :: ' for m in getattr(self, 'inline_mods', []))
-        key = repo_rel + ' :: ' + inl + ((im.key + ' :: ') if im else '') + f.name
+        key = key or (repo_rel + ' :: ' + inl + ((im.key + ' :: ') if im else '') + f.name)
         c = self.contracts.get(key)
         if c is not None:
             c.used = True
@@ -466,13 +641,19 @@ class Unit:
                 mode = 'external'
             if key in self.cfg.get('drop', ()):
                 mode = 'drop'
-            if mode == 'assumed' and key not in self.cfg.get('no_inline', ()) and self.transparent_body(f):
+            if mode == 'assumed' and key not in self.cfg.get('no_inline', ()) and not inject and self.transparent_body(f) \
+                    and not any(re.search(rx, key) for rx in self.cfg.get('elide_body', ())):
                 mode = 'transparent'
         tybase = ''
         if im is not None:
             tybase = re.sub(r'<.*$', '', im.ty.strip().lstrip('&').strip()).split('::')[-1] + '::'
         vname = '::'.join([x for x in [self.cfg.get('crate_name', 'unit'), modpath.replace('::', '::')] if x]) + '::' + tybase + f.name
-        meta = dict(key=key, verus_name=vname, file=repo_rel, lines=[it.line, it.end_line], sha256_source=sha(it.text), norm_sha=norm_sha(it.text), modpath=modpath, fn_pattern=tybase + f.name, mode=mode,
+        if inject and mode != 'verified':
+            if c is not None or any(re.search(rx, key) for rx in self.cfg.get('elide_body', ())):
+                mode = 'assumed'      # an explicit `mode assumed` block, or a body outside the model (elided below)
+            else:
+                mode = 'verified'     # a hook without a sidecar block is still verified against the trait-level contract
+        meta = dict(key=key, verus_name=vname, file=repo_rel, lines=[it.line, it.end_line], sha256_source=sha(src_text or it.text), norm_sha=norm_sha(src_text or it.text), modpath=modpath, fn_pattern=tybase + f.name, mode=mode,
                     serves=(c.serves if c else []), rules=[], contract_file=(os.path.relpath(c.file, self.cfg['verif_root']) if c else None))
         self.functions.append(meta)
         if key in self.downgraded:
@@ -502,12 +683,20 @@ class Unit:
         attrs = []
         extra = ''
         if c is not None:
-            contract_txt = self.contract_text(c)
+            contract_txt = self.contract_text(c, inject=inject, key=key)
             attrs += c.attrs
             extra = '\n'.join(c.extra)
+        elif inject:
+            contract_txt = self.contract_text(None, inject=inject, key=key)
         if mode == 'assumed':
             attrs.append('#[verifier::external_body]')
             new_body = body
+            if any(re.search(rx, key) for rx in self.cfg.get('elide_body', ())):
+                # the body uses an external API outside the unit's model (it would not even type-check here); only the signature and the
+                # assumed contract are emitted
+                new_body = '{ unimplemented!() }'
+                self.rule('E9.assumed_body_elided')
+                meta['rules'].append('E9:body_elided')
         elif mode == 'transparent':
             # E12: a body that is one constructor/field expression is its own specification (inlining)
             new_body = body
@@ -550,8 +739,8 @@ class Unit:
         e = f.body.strip()[1:-1].strip()
         if not e or not re.match(r'^[\w\s.&*():<>,{}]+$', e):
             return False
-        if f.ret.startswith('&['):
-            return False
+        if f.ret.startswith('&[') or '::<' in e:
+            return False      # (a turbofish call `f::<T>(..)` is not a constructor)
         for m in re.finditer(r'(\w+)\s*\(', e):
             if not (m.group(1)[0].isupper()):
                 return False
@@ -559,8 +748,9 @@ class Unit:
             return False
         return True
 
-    def contract_text(self, c):
+    def contract_text(self, c, inject=(), key=None):
         parts = []
+        key = key or c.key
 
         def clauses(kind, lst):
             if not lst:
@@ -568,10 +758,12 @@ class Unit:
             parts.append('\n    %s' % kind)
             for cl in lst:
                 txt = cl.text.strip().rstrip(',')
-                parts.append('\n        /*@CL %s|%s|%s|%d*/ (%s),' % (c.key, cl.kind, cl.name, txt.count('\n'), txt))
-        clauses('requires', c.requires)
-        clauses('ensures', c.ensures)
-        if c.decreases:
+                parts.append('\n        /*@CL %s|%s|%s|%d*/ (%s),' % (key, cl.kind, cl.name, txt.count('\n'), txt))
+        from sidecar import Clause
+        # E10b: trait-level clauses of a hook (kind hook_requires / hook_ensures / call_ensures) are assumed resp. verified on the concrete suite's body
+        clauses('requires', (c.requires if c else []) + [Clause(k, n, t) for (k, n, t) in inject if k.endswith('requires')])
+        clauses('ensures', (c.ensures if c else []) + [Clause(k, n, t) for (k, n, t) in inject if not k.endswith('requires')])
+        if c and c.decreases:
             parts.append('\n    decreases %s' % c.decreases.strip())
         return ''.join(parts)
 
@@ -641,8 +833,10 @@ class Unit:
             entry = '\n'.join(c.entry)
         gen_c = re.search(r'\bC\b', (f.generics or '')) or True
         if self.cfg.get('auto_algebra', True) and not (c and c.nohints):
-            entry = ('broadcast use crate::vstdx::group_cow;\nproof { crate::vspec::use_algebra::<C>(); crate::vspec::use_id_order::<C>(); %s}\n'
-                     % ('crate::vspec::use_ac::<C>(); ' if self.cfg.get('second_opinion') else '')) + entry
+            hints = getattr(self, 'entry_hints', DEFAULT_ENTRY_HINTS)
+            if self.cfg.get('second_opinion'):
+                hints = hints.replace('crate::vspec::use_id_order::<C>(); }', 'crate::vspec::use_id_order::<C>(); crate::vspec::use_ac::<C>(); }')
+            entry = hints + entry
         if self.cfg.get('canary'):
             # vacuity guard (DESIGN 2.7): with this flag every verified function must FAIL
             entry = entry + '\nassert(false); /*@CANARY*/'
@@ -676,7 +870,7 @@ class Unit:
                 if ('$$' + h) in pat:
                     rx = rx.replace(re.escape('$$' + h), r'(?P<%s>&?[A-Za-z_][\w.:]*(?:\([\w.:,&*]*\))?\??)' % h, 1)
                 else:
-                    rx = rx.replace(re.escape('$' + h), r'(?P<%s>[A-Za-z_][\w.]*)' % h, 1)
+                    rx = rx.replace(re.escape('$' + h), r'(?P<%s>[A-Za-z_][\w.]*|\d+)' % h, 1)      # an operand: identifier / field path / integer literal
             m = re.search(rx, flat)
             if not m or (idx[m.start()] > 0 and (t[idx[m.start()] - 1].isalnum() or t[idx[m.start()] - 1] in '_.')):
                 if o.fields.get('optional'):
@@ -714,7 +908,8 @@ class Unit:
             ens = o.fields.get('ensures')
             txt = '#[verifier::external_body]\npub fn __outl_%s%s' % (o.name, sig)
             if req:
-                txt += '\n    requires %s' % req.strip().rstrip(',') + ','
+                # named, so that a caller violating it (e.g. a changed offset: the std call would panic) is reported on `outline_requires[<name>]`
+                txt += '\n    requires /*@CL %s|outline_requires|%s|%d*/ (%s),' % (c.key, o.name, req.strip().count('\n'), req.strip().rstrip(','))
             if ens:
                 txt += '\n    ensures %s' % ens.strip().rstrip(',') + ','
             # `tail:` (multi-statement outlines): text appended after the outlined statements so that the helper returns a value
@@ -1158,6 +1353,8 @@ class Unit:
                         parts.append('\n        /*@HCL %s|hook_ensures|%s|%d*/ (%s),' % (key, cl.name, cl.text.strip().count('\n'), cl.text.strip().rstrip(',')))
                 htext = ''.join(parts)
             hooks.append('    fn %s%s(%s)%s%s%s;' % (f.name, f.generics, f.params, ret, where, htext))
+            self.hook_info = getattr(self, 'hook_info', {})
+            self.hook_info[f.name] = dict(generics=f.generics, params=f.params, ret=f.ret, where=f.where, contract=c)
             if c and c.call_ensures:
                 # hooks whose contract cannot be stated inside the trait (a `Cow<T>` result needs `T: Clone`, whose impl depends on the
                 # trait: cyclic): every call `<C>::hook(..)` in verified code is routed through this wrapper, whose body is exactly that
@@ -1195,7 +1392,7 @@ class Unit:
                             % (dkey, ''.join(a + '\n' for a in attrs), f.name, gen2, subst(f.params), subst(ret), subst(where), subst(ctext), body))
             if c and c.extra:
                 defaults.append('\n'.join(c.extra))
-        prelude = open(os.path.join(cfg['verif_root'], cfg['traits_prelude'])).read()
+        prelude = self.read_verif_file(cfg['traits_prelude'])
         if '//@HOOKS' not in prelude:
             raise ExtractError('prelude traits file lacks the //@HOOKS marker')
         prelude = prelude.replace('//@HOOKS', '\n'.join(hooks))
@@ -1220,7 +1417,7 @@ class Unit:
         # prelude (crate root level text, already containing its own verus! blocks)
         for p in cfg.get('prelude_files', []):
             out.append('// ===== prelude: %s =====' % p)
-            lt = open(os.path.join(cfg['verif_root'], p)).read()
+            lt = self.read_verif_file(p)
             out.append(lemma_canary(lt) if cfg.get('lemma_canary') and p.startswith('lemmas/') else lt)
         if cfg.get('traits_file'):
             out.append('// ===== traits (prelude + E10) =====')
@@ -1249,8 +1446,11 @@ class Unit:
             tree[modpath] = (v, p)
         # outlined helpers + extra go to the crate root `vhelpers`? -> emitted in the module of their function (handled inline)
 
+        mod_use = dict((mp, o.get('use')) for mp, _, o in mods if o.get('use'))
+
         def emit_mod(modpath, depth):
             v, p = tree[modpath]
+            STD_USE = mod_use.get(modpath, globals()['STD_USE'])
             children = [m for m in tree if m and (m.rsplit('::', 1)[0] if '::' in m else '') == modpath and m != modpath]
             s = ''
             if modpath:
@@ -1270,12 +1470,12 @@ class Unit:
             out.append('pub mod voutl {\n' + STD_USE + '\n#[allow(unused_imports)] use crate::*;\nverus! {\n' + '\n'.join(helpers) + '\n} // verus!\n}')
         for p in cfg.get('postlude_files', []):
             out.append('// ===== postlude: %s =====' % p)
-            lt = open(os.path.join(cfg['verif_root'], p)).read()
+            lt = self.read_verif_file(p)
             out.append(lemma_canary(lt) if cfg.get('lemma_canary') else lt)
         out.append('fn main() {}')
         text = '\n'.join(out)
         prefixes = [cfg['repo_prefix']] + [o['repo_prefix'] for _, _, o in mods if o.get('repo_prefix')]
-        unused = [c.key for c in self.contracts.values() if not c.used and any(c.key.startswith(p) for p in prefixes)]
+        unused = [c.key for c in self.contracts.values() if not c.used and any(re.sub(r'^impl ', '', c.key).startswith(p) for p in prefixes)]
         if unused:
             raise ExtractError('lost anchor: sidecar blocks without a matching function: ' + '; '.join(unused))
         return text
@@ -1302,17 +1502,22 @@ class Unit:
 
 
 def load_contracts(dirs):
-    cs = []
+    """A block in a LATER directory replaces the block with the same key of an earlier one (unit-specific overrides, e.g. the
+    world-generic contracts of the Taproot unit); two blocks for one key inside the same directory are an error."""
+    merged = {}
     for d in dirs:
+        keys = {}
         for fn in sorted(os.listdir(d)):
             if fn.endswith('.vc'):
-                cs += parse_sidecar(os.path.join(d, fn))
-    keys = {}
-    for c in cs:
-        if c.key in keys:
-            raise SyntaxError('duplicate sidecar block for %s (%s and %s)' % (c.key, keys[c.key].file, c.file))
-        keys[c.key] = c
-    return cs
+                for c in parse_sidecar(os.path.join(d, fn)):
+                    if c.key in keys:
+                        raise SyntaxError('duplicate sidecar block for %s (%s and %s)' % (c.key, keys[c.key].file, c.file))
+                    keys[c.key] = c
+        for k, c in keys.items():
+            if k in merged:
+                c.overrides = merged[k].file
+            merged[k] = c
+    return list(merged.values())
 
 
 def build_unit(cfg):
